@@ -197,6 +197,17 @@ func c20Common(lang string, code string) Sx {
 	if err := os.WriteFile(filepath.Join(src, name), []byte(code), 0o644); err != nil {
 		return L(A("!ERR"), A(err.Error()))
 	}
+	if len(code)%2 == 1 {
+		// every other tree: a .gitignore whose pattern matches a FILE that sorts before the analysed one (generated
+		// code next to the sources); it must contribute nothing and must not hide its neighbours
+		gen := "package demo\n\ntype Generated struct{}\n\nfunc GeneratedFn() {}\n"
+		genName := "aaa_gen.go"
+		if lang == "py" {
+			gen, genName = "class Generated:\n    def gen(self): pass\n", "aaa_gen.py"
+		}
+		_ = os.WriteFile(filepath.Join(src, ".gitignore"), []byte("*_gen.go\n*_gen.py\n"), 0o644)
+		_ = os.WriteFile(filepath.Join(src, genName), []byte(gen), 0o644)
+	}
 	wd, _ := os.Getwd()
 	if err := os.Chdir(dir); err != nil {
 		return L(A("!ERR"), A(err.Error()))
